@@ -403,7 +403,7 @@ def prepare(tier, seed):
     global _CASES
     _CASES = None
     if tier == "quick":
-        return 5000
+        return 20000
     from sim import patch
     import sys
     patch.install()
